@@ -456,13 +456,16 @@ def _db_concat_expr(dbmodel, expression):
 
 
 def _trimstr(dbmodel, expression):
+    # trimstr(start, stop): start inclusive, stop exclusive (as the Pandas str.slice); SUBSTR takes a length
     return (
         "SUBSTR("
         + dbmodel.expr_to_sql(expression.args[0], want_inline_parens=False)
         + ", 1 + "
         + dbmodel.expr_to_sql(expression.args[1], want_inline_parens=False)
         + ", "
-        + dbmodel.expr_to_sql(expression.args[2], want_inline_parens=False)
+        + dbmodel.expr_to_sql(expression.args[2], want_inline_parens=True)
+        + " - "
+        + dbmodel.expr_to_sql(expression.args[1], want_inline_parens=True)
         + ")"
     )
 
